@@ -33,12 +33,14 @@ type c13Case struct {
 	Lines  int       `json:"lines"`
 	Fails  []int     `json:"fails"` // reads whose file cannot be decoded (a .gz that is not gzip)
 	Names  int64     `json:"names"` // seed for the choice of file names
+	Glob   bool      `json:"glob"`  // the reads of a session are the files of ONE command (a glob), entered together
 }
 
 type c13Obs struct {
 	Tokens  int `json:"tokens"`
 	Open    int `json:"open"`
 	Waiting int `json:"waiting"`
+	Retry   int `json:"retrying"` // reads whose file the harness rotated away and that have not ended: they keep their slot
 }
 
 type c13Result struct {
@@ -67,6 +69,7 @@ type c13World struct {
 	wg       sync.WaitGroup
 	cancelld map[int]bool
 	nameOf   map[string]int
+	rotated  map[int]bool
 }
 
 var c13Registry sync.Map // path -> *c13World
@@ -92,6 +95,19 @@ func (w *c13World) openCount() int {
 	return n
 }
 
+// isOpen: a deleted file shows up in /proc/self/fd as "<path> (deleted)"
+func (w *c13World) isOpen(path string) bool {
+	ents, _ := os.ReadDir("/proc/self/fd")
+	for _, e := range ents {
+		if l, err := os.Readlink("/proc/self/fd/" + e.Name()); err == nil {
+			if l == path || l == path+" (deleted)" {
+				return true
+			}
+		}
+	}
+	return false
+}
+
 // state of a read derived from the recorded events
 func (w *c13World) readState() map[int]string {
 	st := map[int]string{}
@@ -101,7 +117,7 @@ func (w *c13World) readState() map[int]string {
 		}
 		p, _ := e.Args[1].(string)
 		r, ok := w.readOf[p]
-		if !ok {
+		if !ok || !strings.HasPrefix(e.Point, "limiter.") {
 			continue
 		}
 		st[r] = strings.TrimPrefix(e.Point, "limiter.")
@@ -149,7 +165,14 @@ func (w *c13World) observe() c13Obs {
 			waiting++
 		}
 	}
-	return c13Obs{Tokens: len(w.limiter), Open: w.openCount(), Waiting: waiting}
+	retry := 0
+	st := w.readState()
+	for r := range w.rotated {
+		if s := st[r]; s == "acquired" {
+			retry++
+		}
+	}
+	return c13Obs{Tokens: len(w.limiter), Open: w.openCount(), Waiting: waiting, Retry: retry}
 }
 
 func (w *c13World) startDrain(s int) {
@@ -202,7 +225,7 @@ func c13Run(c c13Case, base string) (res c13Result) {
 	os.MkdirAll(dir, 0755)
 	defer os.RemoveAll(dir)
 	w := &c13World{c: c, dir: dir, sess: map[int]*ServerHandler{}, files: map[int]string{}, readOf: map[string]int{},
-		drain: map[int]bool{}, deliv: map[string]int{}, cancelld: map[int]bool{}}
+		drain: map[int]bool{}, deliv: map[string]int{}, cancelld: map[int]bool{}, rotated: map[int]bool{}}
 	w.limiter = make(chan struct{}, c.Cap)
 	w.other = make(chan struct{}, 64)
 	w.rec = newRecorder()
@@ -225,8 +248,15 @@ func c13Run(c c13Case, base string) (res c13Result) {
 		if fails[r] {
 			name = fmt.Sprintf("r%d_broken.log.gz", r)
 		}
-		os.MkdirAll(filepath.Join(dir, fmt.Sprintf("d%d", r)), 0755)
-		p := filepath.Join(dir, fmt.Sprintf("d%d", r), name)
+		sub := fmt.Sprintf("d%d", r)
+		if c.Glob {
+			sub = fmt.Sprintf("g%d", c.SessOf[r-1]) // one directory per session: its command is "<dir>/*"
+			if name == "-" {
+				name = fmt.Sprintf("r%d_dash.log", r)
+			}
+		}
+		os.MkdirAll(filepath.Join(dir, sub), 0755)
+		p := filepath.Join(dir, sub, name)
 		w.nameOf[name] = r
 		var sb strings.Builder
 		for i := 0; i < nlines; i++ {
@@ -283,6 +313,7 @@ func c13Run(c c13Case, base string) (res c13Result) {
 		}
 	}()
 	entered := map[int]bool{}
+	globbed := map[int]bool{}
 	ev := func(a string, id int) {
 		w.rec.add("harness."+a, nil, fmt.Sprintf("#%d", id))
 	}
@@ -294,7 +325,13 @@ func c13Run(c c13Case, base string) (res c13Result) {
 		switch st.A {
 		case "enter":
 			entered[st.ID] = true
-			w.sess[c.SessOf[st.ID-1]].Write(c13Command(c.Mode, w.files[st.ID]))
+			if !c.Glob {
+				w.sess[c.SessOf[st.ID-1]].Write(c13Command(c.Mode, w.files[st.ID]))
+			} else if s := c.SessOf[st.ID-1]; !globbed[s] {
+				// one command for all files of the session: they reach the limiter together, in any order
+				globbed[s] = true
+				w.sess[s].Write(c13Command(c.Mode, filepath.Join(dir, fmt.Sprintf("g%d", s), "*")))
+			}
 			if !w.waitFor(st.ID, "acquired", "wait", "cancelled", "relbegin", "relend", "exit") {
 				res.Problem = fmt.Sprintf("read %d never reached the limiter", st.ID)
 			}
@@ -315,6 +352,26 @@ func c13Run(c c13Case, base string) (res c13Result) {
 					}
 				}
 			}
+		case "rotate":
+			// the followed file goes away: the reader notices at its next truncation check (every 3 s), closes the
+			// file and read() starts its retry loop - the slot stays taken, no file is open
+			if cur := w.readState()[st.ID]; cur != "acquired" {
+				res.Diverged = fmt.Sprintf("rotate(%d) not possible: read is in state %q", st.ID, cur)
+				continue
+			}
+			os.Remove(w.files[st.ID])
+			gone := false
+			for dl := time.Now().Add(8 * time.Second); time.Now().Before(dl); time.Sleep(20 * time.Millisecond) {
+				if !w.isOpen(w.files[st.ID]) {
+					gone = true
+					break
+				}
+			}
+			if !gone {
+				res.Problem = fmt.Sprintf("the reader of read %d did not notice the removal of its file", st.ID)
+			}
+			w.rotated[st.ID] = true
+			w.rec.add("harness.rotate", nil, w.files[st.ID])
 		case "finish":
 			if cur := w.readState()[st.ID]; cur != "acquired" {
 				res.Diverged = fmt.Sprintf("finish(%d) not possible: read is in state %q", st.ID, cur)
